@@ -4,6 +4,7 @@ import re
 
 from ..core import AnalysisError
 from .. import pyfront as P
+from .. import gsa
 
 EXPLANATION = ('Mostly value-level (prefix arithmetic over arbitrary names) and therefore not decided; the clauses visible in the shape of the '
                'code are: every node built from a C symbol receives that symbol\'s identifier verbatim as c:identifier / c:type (argument '
@@ -60,25 +61,38 @@ def check(ctx):
     # ------------------------------------------------------------------ R2 underscore and foreign exclusion
     r2 = ctx.rule('R2', 'underscore-prefixed and foreign symbols are left out', floor=7)
     for fn in ('_create_function', '_create_function_macro', '_create_const'):
-        f = py.func(TR, 'Transformer.' + fn)
-        first = [s for s in f.body if not (isinstance(s, ast.Expr) and isinstance(s.value, ast.Constant))][0]
-        ok = isinstance(first, ast.If) and P.src(first.test) == "symbol.ident.startswith('_')" and len(first.body) == 1 and isinstance(first.body[0], ast.Return) and P.src(first.body[0].value) == 'None'
-        r2.check(ok, '%s drops underscore symbols first' % fn, tm.rel, f.lineno, '%s does not start by returning None for identifiers that begin with an underscore' % fn)
-    ss = py.func(TR, 'Transformer._strip_symbol')
-    raises = [n for n in P.walk_no_nested(ss) if isinstance(n, ast.Raise)]
-    r2.check(any(any(g.text() == 'ns != self._namespace' for g in P.guards(r_)) for r_ in raises), '_strip_symbol rejects symbols of other namespaces', tm.rel, ss.lineno,
-             'no raise under `ns != self._namespace`')
-    si = py.func(TR, 'Transformer.strip_identifier')
-    rets = [n for n in P.walk_no_nested(si) if isinstance(n, ast.Return) and n.value is not None and P.src(n.value) != 'None']
-    r2.check(rets and all(any(g.text() == 'ns is self._namespace' for g in P.guards(r_)) for r_ in rets), 'strip_identifier returns only for the current namespace', tm.rel, si.lineno,
-             'strip_identifier can return a name for a foreign namespace')
-    r2.check(any(isinstance(n, ast.Raise) for n in P.walk_no_nested(si)), 'strip_identifier raises for foreign identifiers', tm.rel, si.lineno, 'no raise in strip_identifier')
-    pf = py.func(MT, 'MainTransformer._pair_function')
-    first = [s for s in pf.body if not (isinstance(s, ast.Expr) and isinstance(s.value, ast.Constant))][0]
-    r2.check(isinstance(first, ast.If) and "func.symbol.startswith('_') or func.is_type_meta_function()" == P.src(first.test) and isinstance(first.body[0], ast.Return),
-             '_pair_function skips internal and get_type functions', mt.rel, pf.lineno, 'first statement: %s' % P.src(first)[:80])
-    order = [P.call_name(c) for c in P.calls_in(pf) if (P.call_name(c) or '').startswith('self._is_') or (P.call_name(c) or '').startswith('self._pair_static')]
-    r2.check(order == ['self._is_constructor', 'self._is_method', 'self._pair_static_method'], 'constructor, then method, then static pairing', mt.rel, pf.lineno, 'pairing order: %s' % order)
+        SF = gsa.summarise(ctx, TR, 'Transformer.' + fn, inline_only=())
+        US = r"^%s\.ident\.startswith\('_'\)$" % re.escape(SF.P(1))
+        got = gsa.returns_under(SF, gsa.decide_by([(US, True)]))
+        other = [e for e in SF.effects if e.kind in ('store', 'call') and e.target != '%s.ident.startswith' % SF.P(1) and gsa.ev3(e.cond, {gsa._unparse(ast.parse("%s.ident.startswith('_')" % SF.P(1), mode='eval').body): True}) is not False]
+        r2.check([g[0] for g in got] == ['None'] and got[0][2] and not other, '%s drops underscore symbols first' % fn, tm.rel, SF.func.lineno,
+                 '%s does not start by returning None for identifiers that begin with an underscore (returns %s, effects before: %s)' % (fn, [g[0][:40] for g in got], [e.target for e in other][:3]))
+    SS = gsa.summarise(ctx, TR, 'Transformer._strip_symbol', inline_only=())
+    ss = SS.func
+    NSEQ = r'\[0\] == self\._namespace$|^\w+ == self\._namespace$|^\w+ is self\._namespace$'
+    fr_ = [e for e in SS.effects if e.kind == 'raise' and 'TransformerException' in e.value and gsa.impossible(SS, e, [(NSEQ, True)]) and gsa.allowed(SS, e, [(NSEQ, False), (r'^@except', False)])]
+    r2.check(bool(fr_), '_strip_symbol rejects symbols of other namespaces', tm.rel, ss.lineno, 'no raise exactly when the matched namespace is not the current one')
+    okret = all(gsa.ev3(g, gsa.valuation(SS, [(NSEQ, False)], extra_atoms=gsa.atoms(g))) is False for g, n in SS.returns)
+    r2.check(bool(SS.returns) and okret, '_strip_symbol returns only for the current namespace', tm.rel, ss.lineno, '_strip_symbol can return a name for a foreign namespace')
+    SI = gsa.summarise(ctx, TR, 'Transformer.strip_identifier', inline_only=())
+    si = SI.func
+    rets = [(g, n) for g, n in SI.returns if gsa._unparse(n) != 'None']
+    okret = all(gsa.ev3(g, gsa.valuation(SI, [(NSEQ, False)], extra_atoms=gsa.atoms(g))) is False for g, n in rets)
+    r2.check(bool(rets) and okret, 'strip_identifier returns only for the current namespace', tm.rel, si.lineno, 'strip_identifier can return a name for a foreign namespace')
+    r2.check(any(e.kind == 'raise' and 'TransformerException' in e.value and 'foreign' in e.value for e in SI.effects), 'strip_identifier raises for foreign identifiers', tm.rel, si.lineno, 'no raise in strip_identifier')
+    PF = gsa.summarise(ctx, MT, 'MainTransformer._pair_function', opaque=('_is_constructor', '_is_method', '_pair_static_method', '_pair_constructor', '_pair_method'))
+    pf = PF.func
+    fpar = re.escape(PF.P(1))
+    INTERNAL = [r"^%s\.symbol\.startswith\('_'\)$" % fpar, r'^%s\.is_type_meta_function\(\)$' % fpar]
+    pcalls = [e for e in PF.effects if e.kind == 'call' and re.search(r'^self\._(is_|pair_)', e.target)]
+    okint = bool(pcalls) and all(all(gsa.impossible(PF, e, [(pat, True)]) for pat in INTERNAL) for e in pcalls)
+    r2.check(okint, '_pair_function skips internal and get_type functions', mt.rel, pf.lineno, 'pairing helpers are reached for underscore-prefixed or get_type functions')
+    ctor = [e for e in pcalls if e.target == 'self._is_constructor']
+    meth = [e for e in pcalls if e.target == 'self._is_method']
+    stat = [e for e in pcalls if e.target == 'self._pair_static_method']
+    okord = bool(ctor) and bool(meth) and bool(stat) and all(gsa.impossible(PF, e, [(r'_is_constructor\(', True)]) for e in meth + stat) and all(gsa.impossible(PF, e, [(r'_is_method\(', True)]) for e in stat) \
+        and all(c.seq < m_.seq for c in ctor for m_ in meth)
+    r2.check(okord, 'constructor, then method, then static pairing', mt.rel, pf.lineno, 'pairing order: %s' % [(e.target, e.when()[:100]) for e in pcalls])
     pp = py.func(TR, 'Transformer.parse')
     ex = [h for n in P.walk_no_nested(pp) if isinstance(n, ast.Try) for h in n.handlers]
     r2.check(any(P.src(h.type) == 'TransformerException' and isinstance(h.body[-1], ast.Continue) for h in ex), 'foreign symbols are skipped with a warning', tm.rel, pp.lineno,
@@ -86,33 +100,43 @@ def check(ctx):
 
     # ------------------------------------------------------------------ R3 pairing guards
     r3 = ctx.rule('R3', 'method/constructor preconditions each have an unconditional rejecting row', floor=9)
-    im = py.func(MT, 'MainTransformer._is_method')
-    falses = []
-    for n in P.walk_no_nested(im):
-        if isinstance(n, ast.Return) and P.src(n.value) == 'False':
-            falses.append([g.text() for g in P.guards(n) if g.kind == 'if'])
+    IM = gsa.summarise(ctx, MT, 'MainTransformer._is_method', opaque=('_get_uscored_prefix', '_uscored_prefix_for_type'))
+    im = IM.func
+    fn_ = re.escape(IM.P(1))
+    FIRST = r'%s\.parameters\[0\]' % fn_
+    TGT = r'self\._transformer\.lookup_typenode\(%s\.type\)' % FIRST
+    okbase = [(r'^%s\.parameters$' % fn_, True), (r'^isinstance\(%s, ast\.(Class|Interface|Record|Union|Boxed)\)$' % TGT, True), (r'^%s\.namespace == self\._namespace$' % TGT, True),
+              (r'^%s\.direction == ast\.PARAM_DIRECTION_(OUT|INOUT)$' % FIRST, False), (r'^%s\.type\.ctype is None$' % FIRST, False), (r"^1 < %s\.type\.ctype\.count\('\*'\)$" % FIRST, False),
+              (r'^%s\.is_method$' % fn_, True)]
+    allv = gsa.truth_returns(IM, gsa.decide_by(okbase))
+    r3.check(allv == [(True, True)], '_is_method accepts an annotated function with a proper instance parameter', mt.rel, im.lineno, 'baseline verdict is %s (atoms: %s)' % (allv, IM.atoms()[:12]))
     need = {
-        'no parameters': 'not func.parameters',
-        'first parameter is not a class/interface/record/union/boxed': 'not isinstance(target, (ast.Class, ast.Interface, ast.Record, ast.Union, ast.Boxed))',
-        'type of another namespace': 'target.namespace != self._namespace',
-        'out/inout first parameter': 'first.direction in (ast.PARAM_DIRECTION_OUT, ast.PARAM_DIRECTION_INOUT)',
-        'multiple indirection': "first.type.ctype is not None and first.type.ctype.count('*') > 1",
+        'no parameters': [(r'^%s\.parameters$' % fn_, False)],
+        'first parameter is not a class/interface/record/union/boxed': [(r'^isinstance\(%s, ast\.(Class|Interface|Record|Union|Boxed)\)$' % TGT, False)],
+        'type of another namespace': [(r'^%s\.namespace == self\._namespace$' % TGT, False)],
+        'out first parameter': [(r'^%s\.direction == ast\.PARAM_DIRECTION_OUT$' % FIRST, True)],
+        'inout first parameter': [(r'^%s\.direction == ast\.PARAM_DIRECTION_INOUT$' % FIRST, True)],
+        'multiple indirection': [(r"^1 < %s\.type\.ctype\.count\('\*'\)$" % FIRST, True)],
     }
-    for what, atom in sorted(need.items()):
-        r3.check([atom] in falses, '_is_method rejects: %s' % what, mt.rel, im.lineno,
-                 'there is no `return False` guarded by exactly `%s` (rows: %s): a function whose first parameter violates this is still made a method (of a type it does not '
-                 'belong to)' % (atom, [f_ for f_ in falses if any(atom in x for x in f_)]), detail=atom)
-    r3.check(['not func.is_method', 'not subsymbol.startswith(uscored_prefix)'] in falses, '_is_method: un-annotated functions must carry the type\'s prefix', mt.rel, im.lineno,
-             'prefix test rows: %s' % [f_ for f_ in falses if any('uscored_prefix' in x for x in f_)])
-    ic = py.func(MT, 'MainTransformer._is_constructor')
-    cf = []
-    for n in P.walk_no_nested(ic):
-        if isinstance(n, ast.Return) and P.src(n.value) == 'False':
-            cf.append([g.text() for g in P.guards(n) if g.kind == 'if'])
-    for what, atom in (('foreign origin type', 'origin_node.namespace != self._namespace'), ('no origin type', 'origin_node is None'),
-                       ('takes its own type as first argument', 'first_arg is not None and first_arg.gi_name == origin_node.gi_name'),
-                       ('ancestor walk ends without meeting the return type', 'parent is None'), ('non-class return type differs', 'origin_node != target')):
-        r3.check(any(atom in x for f_ in cf for x in f_), '_is_constructor rejects: %s' % what, mt.rel, ic.lineno, 'no `return False` under %s' % atom, detail=atom)
+    for what, spec in sorted(need.items()):
+        for annotated in (True, False):
+            got = gsa.truth_returns(IM, gsa.decide_by(spec + [(r'^%s\.is_method$' % fn_, annotated), (r'\.startswith\(', True)] + okbase))
+            r3.check(got == [(False, True)], '_is_method rejects: %s (%s)' % (what, '(method) annotated' if annotated else 'by name'), mt.rel, im.lineno,
+                     'with %s the verdict for %s function is %s: a function whose first parameter violates this is still made a method (of a type it does not belong to)'
+                     % (what, 'an annotated' if annotated else 'an un-annotated, prefix-matching', got), detail=str(got))
+    got = gsa.truth_returns(IM, gsa.decide_by([(r'^%s\.is_method$' % fn_, False), (r'\.startswith\(', False)] + okbase))
+    r3.check(got == [(False, True)], '_is_method: un-annotated functions must carry the type\'s prefix', mt.rel, im.lineno, 'without the prefix and without (method) the verdict is %s' % got)
+    IC = gsa.summarise(ctx, MT, 'MainTransformer._is_constructor', opaque=('_get_constructor_class', '_get_constructor_name', '_get_uscored_prefix', '_uscored_prefix_for_type', '_guess_constructor_by_name',
+                                                                        '_can_have_constructors'))
+    ic = IC.func
+    falses = [g for g, n in IC.returns if gsa._unparse(n) == 'False']
+    FD = gsa.disj(*falses)
+    for what, pat, v in (('foreign origin type', r'\.namespace == self\._namespace$', False), ('no origin type', r'^self\._get_constructor_class\(.*\) is None$', True),
+                         ('takes its own type as first argument', r'\.gi_name == .*\.gi_name$', True),
+                         ('ancestor walk ends without meeting the return type', r'^\w+ is None$|parent.* is None$', True), ('non-class return type differs', r'^self\._get_constructor_class\(.*\) == ', False)):
+        names = [a_ for a_ in gsa.atoms(FD) if re.search(pat, a_)]
+        dep = bool(names) and gsa.sat(gsa.conj(gsa.assign(FD, dict((a_, v) for a_ in names)), gsa.neg(gsa.assign(FD, dict((a_, not v) for a_ in names)))))
+        r3.check(dep, '_is_constructor rejects: %s' % what, mt.rel, ic.lineno, 'no `return False` that depends on %s' % pat, detail=names)
 
     # ------------------------------------------------------------------ R4 bookkeeping symmetry
     r4 = ctx.rule('R4', 'Namespace.track / remove / float are inverses; moved-to marked on one side', floor=6)
@@ -148,22 +172,37 @@ def check(ctx):
 
     # ------------------------------------------------------------------ R5 current namespace wins among prefix matches
     r5 = ctx.rule('R5', 'prefix matches ranked (current namespace, prefix length); the best match is taken', floor=4)
-    sm = py.func(TR, 'Transformer._sort_matches')
-    rets = [(P.src(n.value), [g.text() for g in P.guards(n) if g.kind == 'if']) for n in P.walk_no_nested(sm) if isinstance(n, ast.Return)]
-    ok = len(rets) == 2
-    if ok:
-        cur = [v for v, g in rets if any(x == 'val[0] == self._namespace' for x in g)]
-        oth = [v for v, g in rets if any(x == 'not (val[0] == self._namespace)' for x in g)]
-        ok = cur == ['(1, val[2])'] and oth == ['(0, val[2])']
+    SM = gsa.summarise(ctx, TR, 'Transformer._sort_matches')
+    sm = SM.func
+    vp = SM.P(1)
+    CUR = r'^%s\[0\] == self\._namespace$' % re.escape(vp)
+    cur = gsa.returns_under(SM, gsa.decide_by([(CUR, True)]))
+    oth = gsa.returns_under(SM, gsa.decide_by([(CUR, False)]))
+
+    def key_of(got):
+        if len(got) != 1 or not got[0][2] or not isinstance(got[0][1], ast.Tuple) or len(got[0][1].elts) != 2:
+            return None
+        first = py.try_fold(got[0][1].elts[0], tm)
+        return (first, gsa._unparse(got[0][1].elts[1]))
+    kc, ko = key_of(cur), key_of(oth)
+    ok = kc is not None and ko is not None and isinstance(kc[0], int) and isinstance(ko[0], int) and kc[0] > ko[0] and kc[1] == ko[1] == '%s[2]' % vp
     r5.check(ok, 'sort key = (is current namespace, prefix length)', tm.rel, sm.lineno,
-             '_sort_matches returns %s: the current namespace must outrank any included namespace, whatever the prefix lengths — otherwise a symbol such as gdk_pixbuf_get_from_surface '
-             'scanned for Gdk is attributed to an included GdkPixbuf and dropped as foreign' % rets, detail=rets)
-    sp = py.func(TR, 'Transformer._split_c_string_for_namespace_matches')
-    srt = [c for c in P.calls_in(sp) if P.src(c.func) == 'matches.sort']
-    r5.check(len(srt) == 1 and [P.src(k.value) for k in srt[0].keywords if k.arg == 'key'] == ['self._sort_matches'] and not any(k.arg == 'reverse' for k in srt[0].keywords),
-             'matches sorted ascending with that key', tm.rel, sp.lineno, 'sort call: %s' % [P.src(c) for c in srt])
-    ap_ = [c for c in P.calls_in(sp) if P.src(c.func) == 'matches.append']
-    r5.check(len(ap_) == 1 and P.src(ap_[0].args[0]) == '(ns, name[len(prefix):], len(prefix))', 'match = (namespace, name without prefix, prefix length)', tm.rel, sp.lineno,
-             'match tuple: %s' % [P.src(c.args[0]) for c in ap_])
-    sc = py.func(TR, 'Transformer.split_csymbol')
-    r5.check([P.src(n.value) for n in P.walk_no_nested(sc) if isinstance(n, ast.Return)] == ['matches[-1]'], 'split_csymbol takes the highest-ranked match', tm.rel, sc.lineno, 'split_csymbol return changed')
+             '_sort_matches returns %s for the current namespace and %s for others: the current namespace must outrank any included namespace, whatever the prefix lengths — otherwise a symbol such as '
+             'gdk_pixbuf_get_from_surface scanned for Gdk is attributed to an included GdkPixbuf and dropped as foreign' % ([g[0] for g in cur], [g[0] for g in oth]), detail=[kc, ko])
+    SP = gsa.summarise(ctx, TR, 'Transformer._split_c_string_for_namespace_matches', inline_only=())
+    sp = SP.func
+    srt = [c for c in gsa.find(SP, 'call', r'^\w+\.sort$')]
+    r5.check(len(srt) == 1 and srt[0].kwargs.get('key') == 'self._sort_matches' and 'reverse' not in srt[0].kwargs, 'matches sorted ascending with that key', tm.rel, sp.lineno,
+             'sort call: %s' % [c.value for c in srt])
+    lst = srt[0].target.split('.')[0] if srt else None
+    ap_ = gsa.find(SP, 'call', r'^%s\.append$' % re.escape(lst or '?'))
+    okap = bool(ap_)
+    for c in ap_:
+        n = c.vnode.args[0] if c.vnode is not None and c.vnode.args else None
+        if not (isinstance(n, ast.Tuple) and len(n.elts) == 3 and isinstance(n.elts[1], ast.Subscript) and isinstance(n.elts[1].slice, ast.Slice) and n.elts[1].slice.upper is None
+                and n.elts[1].slice.lower is not None and gsa._unparse(n.elts[1].slice.lower) == gsa._unparse(n.elts[2]) and gsa._unparse(n.elts[2]).startswith('len(')):
+            okap = False
+    r5.check(okap, 'match = (namespace, name without prefix, prefix length)', tm.rel, sp.lineno, 'match tuples: %s' % [c.args[0][:100] for c in ap_ if c.args])
+    SC = gsa.summarise(ctx, TR, 'Transformer.split_csymbol', inline_only=())
+    rv = [gsa._unparse(n) for g, n in SC.returns]
+    r5.check(len(rv) == 1 and re.search(r'^self\._split_c_string_for_namespace_matches\(.*\)\[-1\]$', rv[0]), 'split_csymbol takes the highest-ranked match', tm.rel, SC.func.lineno, 'split_csymbol returns %s' % rv)
